@@ -17,8 +17,15 @@ type sweepSpec struct {
 	FullHdr   int  // full header product for programs with <= FullHdr tokens in total
 	Flags     bool // entries may contain inline flag groups
 	Struct2   int  // stratum B2: bodies of <= Struct2 lines over structLines2 (at least one line outside structLines)
+	PreSuf    bool // stratum P: every pair (prefix, suffix) of group-ish entries around a fixed body
 	HdrOnly   bool // stratum H: programs whose body assembles to nothing (prefix / suffix lines only, empty blocks)
 }
+
+// preSufTokens: what group scanning, group removal and quoting look at
+var preSufTokens = []string{"(?:", "(", ")", "|", `\[`, `\]`, "a", `"`, `\\`}
+
+// groupTokens: whole groups with an alternative that is a literal bracket, parenthesis or quote
+var groupTokens = []string{`(?:\[|ab)`, `(?:\]|ab)`, `(?:\(|ab)`, `(?:\)|ab)`, `(?:"|ab)`, `(?:[(]|ab)`, `(?:[)]|ab)`, `(?:b|cd)+`, "a", ".", `\[`, `\]`}
 
 type header struct{ Flags, Prefix, Suffix string }
 
@@ -133,6 +140,37 @@ func (s sweepSpec) programs(shard, n int, visit func(stratum string, p Prog)) (t
 			emit("B", tokLines(ls), fewHeaders[:2])
 		})
 	}
+	if s.PreSuf {
+		ps := enumEntriesFlags(preSufTokens, 3, s.Flags)
+		for _, e1 := range ps {
+			for _, e2 := range ps {
+				for _, b := range [][][]string{{{"ab"}, {"cd"}}, {{"a"}}} {
+					if idx%n == shard {
+						visit("P", Prog{Prefix: strings.Join(e1, ""), Suffix: strings.Join(e2, ""), Lines: b})
+					}
+					idx++
+				}
+			}
+		}
+	}
+	if s.PreSuf {
+		// the same around whole groups: single entries of <= 3 group tokens, and (prefix, suffix) pairs of <= 2
+		for _, e := range enumEntriesFlags(groupTokens, 3, s.Flags) {
+			if idx%n == shard {
+				visit("G", Prog{Lines: [][]string{e}})
+			}
+			idx++
+		}
+		gs := enumEntriesFlags(groupTokens, 2, s.Flags)
+		for _, e1 := range gs {
+			for _, e2 := range gs {
+				if idx%n == shard {
+					visit("G", Prog{Prefix: strings.Join(e1, ""), Suffix: strings.Join(e2, ""), Lines: [][]string{{"ab"}, {"cd"}}})
+				}
+				idx++
+			}
+		}
+	}
 	if s.Struct2 > 0 {
 		core := map[string]bool{}
 		for _, l := range structLines {
@@ -196,8 +234,8 @@ func shrinkProg(p Prog, valid func(Prog) bool, fails func(Prog) bool) Prog {
 			changed = true
 			return true
 		}
-		// a body without entries: try the prefix / suffix text as the only entry instead
-		if !hasEntry(p.Lines) {
+		// a body without entries, or header text that is more than a letter: try the prefix / suffix text as the only entry instead
+		if !hasEntry(p.Lines) || len(p.Prefix) > 1 || len(p.Suffix) > 1 {
 			for _, t := range []string{p.Prefix, p.Suffix, p.Prefix + p.Suffix, strings.TrimSpace(p.Prefix) + strings.TrimSpace(p.Suffix)} {
 				if t != "" {
 					q := p.clone()
